@@ -38,6 +38,42 @@ struct Ctl {
     cv: Condvar,
 }
 
+fn watchdog_secs() -> u64 {
+    std::env::var("PTCONC_WATCHDOG").ok().and_then(|x| x.parse().ok()).unwrap_or(60)
+}
+
+fn fmt_progs(progs: &[Vec<Op>]) -> String {
+    format!(
+        "{:?}",
+        progs
+            .iter()
+            .map(|p| {
+                p.iter()
+                    .map(|o| match o {
+                        Op::L => "L".to_string(),
+                        Op::F(c) => format!("F{}", c),
+                        Op::R(true) => "R+".to_string(),
+                        Op::R(false) => "R-".to_string(),
+                    })
+                    .collect::<Vec<_>>()
+            })
+            .collect::<Vec<_>>()
+    )
+}
+
+/// Per-schedule watchdog verdict: the schedule does not complete.  The workers cannot be stopped (they may hold
+/// locks of the file system), so the record is printed and the process ends; the caller goes on with the next program.
+fn report_hung(reason: &str, r0: usize, progs: &[Vec<Op>], sched: &[usize], trace: &[u32], pos: &[u32]) -> ! {
+    use std::io::Write;
+    let cut = sched.len().min(80);
+    println!(
+        "{{\"hung\":\"{}\",\"r0\":{},\"progs\":{},\"steps\":{},\"sched\":{:?},\"trace\":{:?},\"pos\":{:?}}}",
+        reason, r0, fmt_progs(progs), sched.len(), &sched[..cut], &trace[..cut.min(trace.len())], pos
+    );
+    let _ = std::io::stdout().flush();
+    std::process::exit(0)
+}
+
 fn run_one(
     fs: &Arc<Fs>,
     ctl: &Arc<Ctl>,
@@ -150,11 +186,25 @@ fn run_one(
         let mut st = ctl.m.lock().unwrap();
         st.turn = Some(t);
         ctl.cv.notify_all();
+        // watchdog: the scheduled worker must reach its next yield point (or finish) within WATCHDOG seconds of
+        // wall time; it is the only runnable thread, so no progress means it is blocked or spins without yielding
+        let started = std::time::Instant::now();
         while st.turn.is_some() {
-            st = ctl.cv.wait(st).unwrap();
+            let (g, _) = ctl.cv.wait_timeout(st, std::time::Duration::from_millis(500)).unwrap();
+            st = g;
+            if st.turn.is_some() && started.elapsed().as_secs() >= watchdog_secs() {
+                let pos = st.pos.clone();
+                drop(st);
+                report_hung("no progress: the scheduled worker did not reach a yield point (blocked, or spinning without yielding)", r0, progs, &sched, &trace, &pos);
+            }
         }
         trace.push(st.pos[t]);
-        if sched.len() > 400 {
+        if sched.len() > 300 {
+            let pos = st.pos.clone();
+            drop(st);
+            report_hung("no termination: more than 300 scheduling steps (a retry loop that never ends)", r0, progs, &sched, &trace, &pos);
+        }
+        if false {
             panic!("schedule does not terminate");
         }
     }
@@ -328,14 +378,16 @@ fn main() {
             }
             "dfs" => {
                 let max: usize = w[1].parse().unwrap();
+                let budget: u64 = w.get(2).and_then(|x| x.parse().ok()).unwrap_or(3600);
+                let t0 = std::time::Instant::now();
                 let mut prefix: Vec<usize> = vec![];
                 let mut count = 0;
                 loop {
                     let out = run_one(&fs, &ctl, ino, dir, &names, r0, &progs, &prefix);
                     emit(&fs, r0, post, &progs, &out);
                     count += 1;
-                    if count >= max {
-                        println!("{{\"dfs_truncated\":true}}");
+                    if count >= max || t0.elapsed().as_secs() >= budget {
+                        println!("{{\"dfs_truncated\":true,\"by\":\"{}\",\"count\":{}}}", if count >= max { "count" } else { "time" }, count);
                         break;
                     }
                     // deepest decision with an untried larger alternative
